@@ -119,6 +119,9 @@ def templates(tier, seed):
             ts.append(Template(f"T5/wrong_dtype/{tag}/N={N}", t_frame, (["a", "b"], False, False, N, {"kinds": dict(tmpl.KINDS, **kinds)})))
     for N in ((0, 1) if tier == "quick" else (0,)):  # (N=1 is part of the thorough T2 family already)
         ts.append(Template(f"T2/ab/strict=False/ordered=0/N={N}", t_frame, (["a", "b"], False, False, N, {})))
+    for N in ((2,) if tier == "quick" else (0, 1, 2, 3)):
+        for lazy in (False, True):
+            ts.append(Template(f"T5/schema_dtype/lazy={int(lazy)}/N={N}", tmpl.pick(tmpl.schema_dtype_case, LABELS), (N, dict(coerce=False, lazy=lazy))))
     # label level with three declared columns (two of them optional or required, chosen by the solver) over every arrangement
     import itertools
 
